@@ -42,18 +42,17 @@ UNPROVED = [
     'silkSyms_lockstep (design priority P1): the decoder model reads back exactly the symbols the mirrored encoder calls of '
     'silk_encode_indices / silk_encode_pulses wrote — a corollary of C08 (range coder) that is out of this property\'s scope; '
     'on the implementation it is searched (encoder final range == decoder final range), not proved',
-    'celtFrame_within_budget is FALSE on the unchanged tree (genuine finding, see tools/c03_budget_packets.txt): `ec_tell(dec) <= 8*len` at '
-    'the end of a CELT frame does not hold for every packet, the `ec_tell(dec) > 8*len` exit of celt_decode_with_ec_dred is reachable '
-    'and opus_decode then returns OPUS_INTERNAL_ERROR. What IS proved (celtBands_reads_within_tracked_budget) is the accounting the '
-    'code documents: remaining_bits = total_bits - ec_tell_frac - 1 per band, a PVQ index is read only if remaining_bits stays >= 0 '
-    'after charging the CACHED cost pulses2bits(q), an N=1 sign bit only while 8 is left. The cached cost bounds the true advance of '
-    'ec_tell_frac for 327 of the 329 reachable cache entries; for (N,K) = (16,5) and (12,15) ec_dec_uint codes V(N,K) as '
-    '((V-1)>>ftb)+1 symbols x 2^ftb raw values, 0.034 resp. 0.0003 eighth-bits more than log2_frac(V) rounded up, so ec_tell_frac '
-    'advances by cached+1 in about 3.4 % of the (16,5) reads; consecutive reads telescope, reads separated by a theta symbol do not, '
-    'and the single eighth-bit of slack covers one such event per band: a last coded band with two groups of (16,5) leaves that '
-    'exhausts its budget exactly ends at ec_tell_frac = total_bits + 1, i.e. ec_tell = 8*len + 1. Not proved: the upper bound '
-    'ec_tell <= 8*len + 1 (overrun at most groups-1 <= 7 eighth-bits), and that no other path (theta cost vs b, stereo N=2 sign bit) '
-    'overruns — both need a cost calculus for the range coder (C08) that does not exist yet',
+    'celtFrame_overrun_bound (conjecture): ec_tell(dec) <= 8*len + 1 at the end of every CELT frame (overrun of the band data at most '
+    'groups-1 <= 7 eighth-bits), and no path other than the PVQ cost drift overruns (theta cost vs b, stereo N=2 sign bit). `ec_tell <= '
+    '8*len` itself is FALSE (tools/c03_budget_packets.txt; the decoder used to return OPUS_INTERNAL_ERROR there, fixed in 59715713: it sets '
+    'st->error and returns the frame, and the model follows). PROVED is the accounting the code documents '
+    '(celtBands_reads_within_tracked_budget): remaining_bits = total_bits - ec_tell_frac - 1 per band, a PVQ index is read only if '
+    'remaining_bits stays >= 0 after charging the CACHED cost pulses2bits(q), an N=1 sign bit only while 8 is left. The cached cost bounds '
+    'the true advance of ec_tell_frac for 327 of the 329 reachable cache entries; for (N,K) = (16,5) and (12,15) ec_dec_uint codes V(N,K) '
+    'as ((V-1)>>ftb)+1 symbols x 2^ftb raw values, 0.034 resp. 0.0003 eighth-bits more than log2_frac(V) rounded up, so ec_tell_frac '
+    'advances by cached+1 in about 3.4 % of the (16,5) reads; consecutive reads telescope, reads separated by a theta symbol do not, and '
+    'the single eighth-bit of slack covers one such event per band. The bound needs a cost calculus for the range coder (C08) that does '
+    'not exist; the budget search (random / encoder / synthesised frames) reports any frame on which the decoder errors',
     'pcm_within_tolerance: the PCM clause is a statement about float DSP relative to an external reference decoder that does not '
     'exist offline; guarded by the self-reference corpus (regression oracle) only',
 ]
@@ -175,13 +174,23 @@ def budget_search(ctx):
         lines = [l.strip() for l in open(BUDGET_PACKETS) if l.startswith('silksyms packet ')]
         rc, out = common.sh([_harness(ctx, 'plain'), 'stdin'], input='\n'.join(lines) + '\n')
         ans = [l[2:] for l in out.split('\n') if l.startswith('O ')]
-        nerr = 0
+        common.lake_build(['opusmodel'])
+        model = common.model_eval(lines)
+        nerr = ndiff = 0
         for i, l in enumerate(lines):
             a = ans[i] if i < len(ans) else '(no answer)'
-            if not a.startswith('OK'):
+            mdl = model[i] if i < len(model) else ''
+            if not a.startswith('OK ret=960 '):
                 nerr += 1
                 res['wit'].append(_budget_witness(l, 'opus_decode returns %s' % a[:60]))
-        res['lines'].append('committed budget packets: %d replayed, %d return an error' % (len(lines), nerr))
+            elif a != mdl:     # decodes, but not to the symbols / final range the reference symbol layer predicts
+                ndiff += 1
+                res['wit'].append({'suite': 'silksyms', 'input': l, 'expected': 'reference symbol layer: …' + mdl[-80:],
+                                   'observed': 'implementation: …' + a[-80:],
+                                   'why': 'a budget-overrunning CELT frame decodes to other symbols / another final range than the frozen '
+                                          'reference symbol layer predicts (first difference: %s)' % _first_diff(mdl, a)})
+        res['lines'].append('committed budget-overrun packets: %d replayed, %d do not decode to 960 samples, %d differ from the reference '
+                            'symbol layer (calls, final range)' % (len(lines), nerr, ndiff))
     import concurrent.futures as cf
     with cf.ThreadPoolExecutor(3) as ex:
         outs = list(ex.map(lambda r: common.sh(r[1], None, 3000), runs))
@@ -202,11 +211,11 @@ def budget_search(ctx):
 
 def _budget_witness(inp, observed):
     return {'suite': 'silksyms-budget', 'input': inp,
-            'expected': 'opus_decode never returns OPUS_INTERNAL_ERROR on a packet; ec_tell(dec) <= 8*len at the end of a CELT frame',
+            'expected': 'opus_decode never returns an error for a CELT frame of a well-formed packet (a frame that ends a fraction of a bit '
+                        'past its budget is decoded like any other)',
             'observed': observed,
-            'why': 'a CELT frame drives the range decoder past its bit budget (cached PVQ costs under-state the coded cost of '
-                   'ec_dec_uint for (N,K) = (16,5) and (12,15)): celt_decode_with_ec takes the `ec_tell(dec) > 8*len` exit and '
-                   'opus_decode returns OPUS_INTERNAL_ERROR instead of audio'}
+            'why': 'opus_decode returns an error instead of audio for a CELT frame (e.g. one that drives the range decoder a fraction of a '
+                   'bit past its budget: cached PVQ costs under-state the coded cost of ec_dec_uint for (N,K) = (16,5) and (12,15))'}
 
 
 def corpus_check(ctx, h, collect=False):
